@@ -136,7 +136,11 @@ def gen(rng, tier):
             rng.choice(["path", "stream"])
         src_lines = rng.random() < 0.3 and src in LINES_OK and src not in ("mrx", "dmrx") and inp != "profile"
         tgt_lines = rng.random() < 0.3
-        cases.append({"k": "conv", "rep": rep, "trep": trep, "src": src, "tgt": tgt, "items": items,
+        select = None
+        if inp == "profile" and rng.random() < 0.6:
+            select = rng.choice(["result.mrs where result-id = 0", "mrs where result-id < 1",
+                                 "mrs from result where result-id = 0", "result.mrs where not result-id = 1"])
+        cases.append({"k": "conv", "rep": rep, "trep": trep, "src": src, "tgt": tgt, "items": items, "select": select,
                       "input": inp, "src_lines": src_lines, "tgt_lines": tgt_lines,
                       "indent": rng.choice([None, None, 2, 4]), "p": rng.random() < 0.8, "l": rng.random() < 0.8,
                       "pm": rng.random() < 0.5})
@@ -180,7 +184,13 @@ def _write_source(c, top):
         tsdb.initialize_database(d, schema)
         tsdb.write(d, "item", [(i, "s%d" % i) for i in range(len(xs))], schema["item"])
         tsdb.write(d, "parse", [(i, i) for i in range(len(xs))], schema["parse"])
-        tsdb.write(d, "result", [(i, 0, S.encode(x)) for i, x in enumerate(xs)], schema["result"])
+        rows = []
+        for i, x in enumerate(xs):
+            rows.append((i, 0, S.encode(x)))
+            if c.get("select"):
+                # a second reading that the selection query has to leave out
+                rows.append((i, 1, S.encode(xs[(i + 1) % len(xs)])))
+        tsdb.write(d, "result", rows, schema["result"])
         return d, xs
     path = os.path.join(top, "in.txt")
     if c["src_lines"]:
@@ -207,6 +217,8 @@ def _run(c):
         if c["input"] == "stream":
             with open(path, encoding="utf-8") as fh:
                 out = commands.convert(fh, src, tgt, **kw)
+        elif c.get("select"):
+            out = commands.convert(path, src, tgt, select=c["select"], **kw)
         else:
             out = commands.convert(path, src, tgt, **kw)
         return out, xs
